@@ -137,7 +137,7 @@ func c13pMain(args map[string]string) {
 				if r.Intn(3) == 0 {
 					stretch(r, m, 0)
 				}
-				pc := PRTCase{B: B(refMarshal(m))}
+				pc := PRTCase{B: B(refMarshalAnyOrder(r, m))}
 				c.out.Begin(idx+i, PRTCase{Schema: &c.env.schema, B: pc.B})
 				c.run(pc)
 			}
